@@ -19,6 +19,7 @@ from pyvc.unit import Unit, U, values_eq
 from pyvc.interp import PyRaise, Obj
 from pyvc import sym, bytesmodel as BM
 from pyvc.sym import land, lor, lnot, ite, implies, cmp
+from .common import own_frame, ALSO_MEM
 
 ASSUMPTIONS = ['controller lists of length <= 3 (quick) / <= 5 (thorough), each controller fully symbolic; longer lists by '
                'induction over the first-match loop (not machine-checked)',
@@ -105,6 +106,7 @@ def hub_unit(kind, k, size):
             raised = e.exc.cls
         eng.oblige('safe.host', 'no host-level error for any address, size %d (%s)' % (size, kind), raised is None,
                    detail=getattr(raised, '__name__', ''))
+        own_frame(eng, 'hub %s' % kind)
         if raised is not None:
             return
         # the hub keeps no state of its own besides the controller list: an access leaves its fields as they were
@@ -199,7 +201,7 @@ def hub_unit(kind, k, size):
                 bad = True
         return bad, '\n'.join(lines)
 
-    return Unit(uid, ['C16'], symbolic, replay, {'contracts': {}, 'logic': 'QF_AUFBV'}, meta={'function': '%s.%s' % (fn.__module__, fn.__qualname__)})
+    return Unit(uid, ['C16', 'C13', 'C02', 'C03'], symbolic, replay, {'contracts': {}, 'logic': 'QF_AUFBV'}, meta={'function': '%s.%s' % (fn.__module__, fn.__qualname__), 'also': ALSO_MEM})
 
 
 def conv_units():
@@ -226,8 +228,8 @@ def conv_units():
                 v = inputs.get('value', 0)
                 b = H.from_int(v, size)
                 return (b != v.to_bytes(size, 'little') or H.to_int(b, size) != v), 'value %s bytes %r' % (hex(v), b)
-            return Unit('C16/conv[size=%d]' % size, ['C16'], symbolic, replay, {'contracts': {}, 'logic': 'QF_AUFBV'},
-                        meta={'function': '%s.from_int' % H.__name__})
+            return Unit('C16/conv[size=%d]' % size, ['C16', 'C13', 'C02', 'C03'], symbolic, replay, {'contracts': {}, 'logic': 'QF_AUFBV'},
+                        meta={'function': '%s.from_int' % H.__name__, 'also': ALSO_MEM})
         out.append(mk(size))
     return out
 
